@@ -1017,11 +1017,11 @@ fn trigger_update<M: AsRef<[Machine]>>(
                     duration, machine
                 );
                 // get current internal timer duration, if any
-                let current =
-                    state.scheduled_internal_timer[machine.into_raw()].unwrap_or(*current_time);
+                let current = state.scheduled_internal_timer[machine.into_raw()];
 
-                // update the timer
-                if *replace || current < *current_time + *duration {
+                // update the timer: always if none is running (also for a zero
+                // duration), otherwise on replace or a later expiry
+                if *replace || current.map_or(true, |c| c < *current_time + *duration) {
                     state.scheduled_internal_timer[machine.into_raw()] =
                         Some(*current_time + *duration);
                     // TimerBegin event
